@@ -360,6 +360,7 @@ func tblControl(c *Ctx, tc tblCase, tape *simrt.Tape) (vs []tblV, evals int) {
 	}
 	for _, k := range probes {
 		evals++
+		Beat()
 		has, err := rd.Contains(k)
 		if err != nil {
 			add("contains|error:"+normErr(err), fmt.Sprintf("Contains(%x): %v", headBytes(k, 8), err))
@@ -401,6 +402,7 @@ func tblControl(c *Ctx, tc tblCase, tape *simrt.Tape) (vs []tblV, evals int) {
 		return
 	}
 	evals++
+	Beat()
 	// starting-at and range scans
 	nb := 40
 	if c.Thorough() {
@@ -413,6 +415,7 @@ func tblControl(c *Ctx, tc tblCase, tape *simrt.Tape) (vs []tblV, evals int) {
 			hi = lo
 		}
 		evals++
+		Beat()
 		it, err := rd.ScanStartingAt(lo)
 		var got []kv
 		if err == nil {
@@ -538,6 +541,7 @@ func tblDamage(c *Ctx, tc tblCase, tape *simrt.Tape) (vs []tblV, evals int) {
 		}
 		for _, onRead := range []bool{false, true} {
 			evals++
+			Beat()
 			mode := "verify-on-load"
 			if onRead {
 				mode = "verify-on-read"
@@ -579,6 +583,9 @@ func tblDamage(c *Ctx, tc tblCase, tape *simrt.Tape) (vs []tblV, evals int) {
 	step := 1
 	if !c.Thorough() && len(orig) > 1500 {
 		step = len(orig) / 700
+	}
+	if c.Thorough() && len(orig) > 20000 {
+		step = len(orig) / 5000 // a value of 64 KiB: exhaustive positions would take an hour for this one table
 	}
 	big := len(pairs) > 200
 	if big {
@@ -661,6 +668,7 @@ func tblDamage(c *Ctx, tc tblCase, tape *simrt.Tape) (vs []tblV, evals int) {
 				panic(err)
 			}
 			evals++
+			Beat()
 			d := readEverything(rd, pairs)
 			if _, err := f.WriteAt([]byte{orig[pos]}, int64(pos)); err != nil {
 				panic(err)
